@@ -17,75 +17,100 @@ HERE = os.path.dirname(os.path.dirname(os.path.abspath(__file__)))
 REPO_SRC = os.path.join(os.environ.get("VF_REPO") or "/repo", "src")
 
 PROBES = {
-    "C02": [("G1/2", "fixed", "operations written with a keyword have loc but no source; errors located on them lose their locations"),
-            ("H1/3", "fixed", "copy.copy / deepcopy of a FragmentDefinition lost its source (missing from __slots__)")],
+    "C01": [('I1/2', 'fixed', 'Parser.peek(n) beyond the last token looped for ever instead of raising UnexpectedEOF')],
+    "C02": [('G1/2', 'fixed', 'operations written with a keyword have loc but no source; errors located on them lose their locations'),
+            ('H1/3', 'fixed', 'copy.copy / deepcopy of a FragmentDefinition lost its source (missing from __slots__)')],
     "C03": [('G1/1', 'fixed', "a query printed in short form after a brace-less type-system definition is read as that definition's body"),
-            ("G1/5", "known", "print_ast raises RecursionError on trees the parser accepted (about 200 nested selection sets / list / object values)")],
-    "C04": [("G2/7", "fixed", "a fragment spread inside an inline fragment and next to it is collected twice"),
-            ("G2/11", "fixed", "an Int field answers `true` for a boolean result"),
-            ("G2/1", "fixed", "a ResolverError raised while a list value is consumed escapes the request under BlockingExecutor"),
-            ("H2/9", "fixed", "default type resolution read __typename__ from dict roots only, not from other mappings"),
-            ("H2/3", "known", "a field argument named root, context or info cannot be served by the default resolver (TypeError: multiple values for argument)")],
-    "C05": [("G3/2", "fixed", "an object literal at a custom scalar position makes validate_ast raise AttributeError"),
-            ("H3/6", "fixed", "nested overlapping-field conflicts in a document parsed with no_location raised TypeError while sorting"),
-            ("H3/7", "fixed", "UniqueVariableNamesChecker raised AttributeError on a fragment definition met before any operation"),
-            ("H3/10", "known", "a flat, valid document with a chain of about 1000 fragments makes validate_ast, MaxDepthValidationRule and execution raise RecursionError")],
-    "C06": [("G3/1", "fixed", "overlapping-field conflicts reached through a nested fragment are missed unless fragment names have one letter"),
-            ("G3/4", "fixed", "list literals accepted at non-list positions"),
-            ("G3/5", "fixed", "list literal items typed with the fully unwrapped type"),
-            ("G3/6", "fixed", "impossible fragment spreads below a list / non-null field not reported"),
-            ("H3/5", "fixed", "directives on variable definitions were not checked against the VARIABLE_DEFINITION location"),
-            ("H3/9", "fixed", "x: __typename next to x: lives on another possible type was not reported: meta fields had no type in the overlapping fields rule")],
-    "C07": [("G3/8", "fixed", "a huge integer for a Float variable leaks OverflowError"),
+            ('G1/5', 'known', 'print_ast raises RecursionError on trees the parser accepted (about 200 nested selection sets / list / object values)')],
+    "C04": [('G2/7', 'fixed', 'a fragment spread inside an inline fragment and next to it is collected twice'),
+            ('G2/11', 'fixed', 'an Int field answers `true` for a boolean result'),
+            ('G2/1', 'fixed', 'a ResolverError raised while a list value is consumed escapes the request under BlockingExecutor'),
+            ('H2/9', 'fixed', 'default type resolution read __typename__ from dict roots only, not from other mappings'),
+            ('H2/3', 'known', 'a field argument named root, context or info cannot be served by the default resolver (TypeError: multiple values for argument)'),
+            ('I2/3', 'fixed', 'an unhashable callable (dataclass instance with __call__) as a resolver passed validate() and made every request selecting the field raise TypeError')],
+    "C05": [('G3/2', 'fixed', 'an object literal at a custom scalar position makes validate_ast raise AttributeError'),
+            ('H3/6', 'fixed', 'nested overlapping-field conflicts in a document parsed with no_location raised TypeError while sorting'),
+            ('H3/7', 'fixed', 'UniqueVariableNamesChecker raised AttributeError on a fragment definition met before any operation'),
+            ('H3/10', 'known', 'a flat, valid document with a chain of about 1000 fragments makes validate_ast, MaxDepthValidationRule and execution raise RecursionError')],
+    "C06": [('G3/1', 'fixed', 'overlapping-field conflicts reached through a nested fragment are missed unless fragment names have one letter'),
+            ('G3/4', 'fixed', 'list literals accepted at non-list positions'),
+            ('G3/5', 'fixed', 'list literal items typed with the fully unwrapped type'),
+            ('G3/6', 'fixed', 'impossible fragment spreads below a list / non-null field not reported'),
+            ('H3/5', 'fixed', 'directives on variable definitions were not checked against the VARIABLE_DEFINITION location'),
+            ('H3/9', 'fixed', 'x: __typename next to x: lives on another possible type was not reported: meta fields had no type in the overlapping fields rule'),
+            ('I3/3', 'fixed', 'repeated directives on a variable definition were not reported')],
+    "C07": [('G3/8', 'fixed', 'a huge integer for a Float variable leaks OverflowError'),
             ('H3/8', 'fixed', "a literal accepted by a custom scalar's literal parser at validation was refused at execution (value_from_ast sniffed the node kind first)"),
-            ("H3/3", "known", "an input object field whose value is a variable that was not provided makes the whole argument invalid instead of being treated as absent")],
-    "C08": [("G2/1", "fixed", "a ResolverError raised while a list value is consumed: the four configurations disagree"),
-            ("G2/5", "known", "AsyncIORuntime classifies awaitables through a process-wide cache keyed by type: plain generators and generator-based coroutines decide for each other"),
-            ("H2/2", "fixed", "a CoercionError raised by a resolver is a field error under BlockingExecutor but escaped the generic executor"),
-            ("H2/1", "known", "an ExecutionError / VariablesCoercionError raised inside a resolver is answered as a request error by the two synchronous configurations and raised by the asyncio / thread pool ones")],
-    "C09": [("G2/6", "known", "a mutation with more than about 330 top-level fields raises RecursionError in the generic executor (one frame per field in execute_fields_serially)")],
-    "C10": [("G2/3", "fixed", "a Float variable given a 400-digit integer: OverflowError escapes the entry points"),
+            ('H3/3', 'known', 'an input object field whose value is a variable that was not provided makes the whole argument invalid instead of being treated as absent'),
+            ('I3/8', 'fixed', 'a refused variable value that json.dumps cannot print (Decimal, date, bytes) made coerce_variable_values raise TypeError'),
+            ('I3/2', 'known', "a number written inline for a custom scalar without literal parser reaches the resolver as the token text ('42'), through a variable as 42")],
+    "C08": [('G2/1', 'fixed', 'a ResolverError raised while a list value is consumed: the four configurations disagree'),
+            ('G2/5', 'known', 'AsyncIORuntime classifies awaitables through a process-wide cache keyed by type: plain generators and generator-based coroutines decide for each other'),
+            ('H2/2', 'fixed', 'a CoercionError raised by a resolver is a field error under BlockingExecutor but escaped the generic executor'),
+            ('H2/1', 'known', 'an ExecutionError / VariablesCoercionError raised inside a resolver is answered as a request error by the two synchronous configurations and raised by the asyncio / thread pool ones'),
+            ('I2/1', 'fixed', "a CoercionError raised while a field's value is completed (generator reading directive arguments lazily) escaped the request under BlockingExecutor; the generic executor fired on_field_end twice")],
+    "C09": [('G2/6', 'known', 'a mutation with more than about 330 top-level fields raises RecursionError in the generic executor (one frame per field in execute_fields_serially)')],
+    "C10": [('G2/3', 'fixed', 'a Float variable given a 400-digit integer: OverflowError escapes the entry points'),
             ('G2/8', 'fixed', "ResolverError('') gives an error entry without message"),
-            ("G2/10", "known", "selections / values nested 150-300 deep raise RecursionError out of graphql_blocking (validation, parser)"),
-            ("H2/6", "fixed", "an error whose message is not a string made str(error) / the response raise TypeError"),
-            ("H2/7", "fixed", "extensions declared on a ResolverError subclass were dropped from the response")],
-    "C11": [("G4/9", "fixed", "output types at input positions give RecursionError / TypeError instead of an SDL error"),
-            ("H4/1", "fixed", "a union that is its own member / an interface implementing itself gave RecursionError instead of an SDL error"),
-            ("H4/2", "fixed", "a default value running into an output type nested inside its input type gave TypeError instead of an SDL error"),
-            ("H4/3", "fixed", "chains of about 1000 type definitions / 2000 densely connected types made build_schema raise RecursionError (_build_type_map used one frame per type)"),
-            ("H4/11", "known", "extend_schema(..., schema_directives=[...]) applies the directives a second time to the elements of the base schema")],
-    "C12": [("G4/2", "fixed", "input-object defaults rendered by name although keyed by python_name"),
-            ("G4/4", "fixed", "descriptions always printed as block strings"),
-            ("G4/5", "fixed", "string defaults of custom scalars sniffed with float()"),
-            ("G4/6", "fixed", "to_string(include_introspection=True) cannot be rebuilt"),
+            ('G2/10', 'known', 'selections / values nested 150-300 deep raise RecursionError out of graphql_blocking (validation, parser)'),
+            ('H2/6', 'fixed', 'an error whose message is not a string made str(error) / the response raise TypeError'),
+            ('H2/7', 'fixed', 'extensions declared on a ResolverError subclass were dropped from the response')],
+    "C11": [('G4/9', 'fixed', 'output types at input positions give RecursionError / TypeError instead of an SDL error'),
+            ('H4/1', 'fixed', 'a union that is its own member / an interface implementing itself gave RecursionError instead of an SDL error'),
+            ('H4/2', 'fixed', 'a default value running into an output type nested inside its input type gave TypeError instead of an SDL error'),
+            ('H4/3', 'fixed', 'chains of about 1000 type definitions / 2000 densely connected types made build_schema raise RecursionError (_build_type_map used one frame per type)'),
+            ('H4/11', 'known', 'extend_schema(..., schema_directives=[...]) applies the directives a second time to the elements of the base schema'),
+            ('I4/5', 'fixed', 'extend_schema accepted an extension document defining a type or directive twice and kept the last'),
+            ('I4/6', 'fixed', "with schema_directives given, a directive the document defines and uses without implementation class was an 'Unknown directive' SDL error")],
+    "C12": [('G4/2', 'fixed', 'input-object defaults rendered by name although keyed by python_name'),
+            ('G4/4', 'fixed', 'descriptions always printed as block strings'),
+            ('G4/5', 'fixed', 'string defaults of custom scalars sniffed with float()'),
+            ('G4/6', 'fixed', 'to_string(include_introspection=True) cannot be rebuilt'),
             ('H4/5', 'fixed', "a custom scalar string default ending in a line feed ('12\\n') was printed as a number"),
-            ("H4/6", "fixed", "empty descriptions were not printed, so they did not survive schema -> SDL -> schema")],
-    "C13": [("G4/3", "fixed", "type A implements B with a non-interface B"),
-            ("G4/8", "fixed", "validate() keeps a stale verdict after schema.default_resolver = fn"),
+            ('H4/6', 'fixed', 'empty descriptions were not printed, so they did not survive schema -> SDL -> schema'),
+            ('I4/1', 'fixed', 'a JSON-like custom scalar with a list / object default made to_string() and the introspection of defaultValue raise ValueError'),
+            ('I4/7', 'known', 'a digits-only string default of a string-only custom scalar is printed as a number and cannot be rebuilt')],
+    "C13": [('G4/3', 'fixed', 'type A implements B with a non-interface B'),
+            ('G4/8', 'fixed', 'validate() keeps a stale verdict after schema.default_resolver = fn'),
             ('G4/12', 'fixed', "an ill-formed type name hides that type's other violations"),
-            ("H4/7", "fixed", "an additional non-null argument WITH a default value on an implementing field was reported as a violation of the interface"),
-            ("H4/9", "fixed", "the schema default resolver was checked against the arguments of interface fields, which are never resolved"),
-            ("H4/10", "fixed", "a wrong return type hid the argument violations of an implementation; duplicate fields / arguments were not checked further"),
-            ("H4/8", "fixed", "a required keyword-only resolver parameter after *args was accepted by validate() and failed the first request with TypeError; a non-callable resolver made validate() raise TypeError (second repair: 6091f6c)")],
-    "C14": [("G4/1", "fixed", "clone / transform drop unreachable types"),
-            ("G4/7", "fixed", "schema.default_resolver lost by clone / transform / extend"),
-            ("G4/11", "fixed", "extend_schema rebuilds custom scalars as bare ScalarType"),
-            ("G4/13", "fixed", "a transform replacing a registered resolver yields a schema that cannot be cloned again"),
-            ("H5/9", "fixed", "extend_schema left schema.resolvers / subscriptions / default_resolvers empty"),
-            ("H5/10", "fixed", "the argument types of an inline SchemaDirective definition were not added to schema.types"),
-            ("H5/2", "known", "extend_schema with schema_directives wraps the resolvers of untargeted base fields a second time")],
-    "C15": [("H5/3", "fixed", "with a schema default resolver installed the introspection fields went through it and reported nothing"),
-            ("H5/6", "known", "string defaults of a custom scalar that look like numbers are reported as numbers when nested in a list or input object default")],
-    "C17": [("H2/5", "fixed", "a subscription source that is an async iterable but not an async iterator was refused")],
-    "C18": [("G5/3", "fixed", "SnakeCaseToCamelCaseVisitor raises IndexError on names made of underscores"),
-            ("G5/2", "known", "a chain member raising SkipNode leaves the members before it entered-but-never-left on that node and hides its children from them"),
-            ("G5/7", "known", "a chain member returning None: later members are not entered on the node but still receive its leave and its children"),
-            ("H1/5", "known", "ASTVisitor / DispatchingVisitor raise RecursionError on documents the parser accepted (about 130 nested selection sets, 200 nested list values)")],
-    "C19": [("G3/9", "fixed", "MaxDepthValidationRule raises CoercionError when @skip / @include is steered by a variable left to its default")],
-    "C20": [("G5/4", "fixed", "removing the default of a non-null input is only DANGEROUS"),
-            ("G5/6", "fixed", "the order of reported changes depends on PYTHONHASHSEED"),
-            ("H5/5", "fixed", "a type rebuilt with a subclass (custom ScalarType subclass, EnumType.from_python_enum) was reported as changed kind"),
-            ("H5/4", "known", "default values are compared as Python values: structurally equal schemas report a changed default, and a real A -> B default edit of an enum with swapped values is missed")],
+            ('H4/7', 'fixed', 'an additional non-null argument WITH a default value on an implementing field was reported as a violation of the interface'),
+            ('H4/9', 'fixed', 'the schema default resolver was checked against the arguments of interface fields, which are never resolved'),
+            ('H4/10', 'fixed', 'a wrong return type hid the argument violations of an implementation; duplicate fields / arguments were not checked further'),
+            ('H4/8', 'fixed', 'a required keyword-only resolver parameter after *args was accepted by validate() and failed the first request with TypeError; a non-callable resolver made validate() raise TypeError (second repair: 6091f6c)'),
+            ('I4/3', 'fixed', "a resolver's *args / **kwargs parameter was taken for the parameter of an argument of the same name (false rejection of **args, false acceptance of *args); a leading positional parameter named like an argument accepted"),
+            ('I4/4', 'fixed', 'subscription resolvers were never checked against the arguments of their field')],
+    "C14": [('G4/1', 'fixed', 'clone / transform drop unreachable types'),
+            ('G4/7', 'fixed', 'schema.default_resolver lost by clone / transform / extend'),
+            ('G4/11', 'fixed', 'extend_schema rebuilds custom scalars as bare ScalarType'),
+            ('G4/13', 'fixed', 'a transform replacing a registered resolver yields a schema that cannot be cloned again'),
+            ('H5/9', 'fixed', 'extend_schema left schema.resolvers / subscriptions / default_resolvers empty'),
+            ('H5/10', 'fixed', 'the argument types of an inline SchemaDirective definition were not added to schema.types'),
+            ('H5/2', 'known', 'extend_schema with schema_directives wraps the resolvers of untargeted base fields a second time'),
+            ('I4/2', 'fixed', "regression of repair 3b4430b: an inline SchemaDirective definition whose argument type is also given through additional_types stopped building ('Duplicate type') as soon as the document held an extension"),
+            ('I5/2', 'fixed', "a resolve_type answering with the ObjectType object made every abstract field fail on cloned / transformed / extended schemas ('not a possible type')"),
+            ('I5/9', 'fixed', 'clone() shared EnumValue objects, directive location lists and default value containers with the source: an in-place visitor on the clone changed the source'),
+            ('I5/6', 'fixed', "_replace_types_and_directives compared Python classes: replacing a scalar by a RegexType (SCALAR schema directive), or rebuilding a subclass instance, failed as 'different kind of type'"),
+            ('I1/5', 'fixed', 'functools.wraps applied without its argument in _utils.deprecated: the deprecated SchemaVisitor hooks returned their argument unchanged, without warning, after writing function attributes onto the schema element'),
+            ('I5/3', 'known', 'a schema directive that re-types an argument or input field with a new scalar leaves that scalar out of schema.types'),
+            ('I5/4', 'known', 'an ENUM_VALUE schema directive changing the Python value of a member leaves defaults with the old value'),
+            ('I5/10', 'known', 'the resolver registry of a transformed schema keeps the entries of removed fields')],
+    "C15": [('H5/3', 'fixed', 'with a schema default resolver installed the introspection fields went through it and reported nothing'),
+            ('H5/6', 'known', 'string defaults of a custom scalar that look like numbers are reported as numbers when nested in a list or input object default'),
+            ('I5/5', 'fixed', 'same defect seen through introspection: defaultValue of a custom scalar argument with a list / object default raised ValueError on every runtime'),
+            ('I5/11', 'fixed', 'the string default of a custom scalar with a transforming serializer was reported as its internal value, which does not parse back'),
+            ('I3/4', 'known', 'a directive declared `on VARIABLE_DEFINITION` makes the introspection of directive locations raise RuntimeError')],
+    "C16": [('I2/5', 'fixed', 'subscribe() fired on_execution_start before its refusals and never on_execution_end when it refused the operation or the subscription resolver failed')],
+    "C17": [('H2/5', 'fixed', 'a subscription source that is an async iterable but not an async iterator was refused')],
+    "C18": [('G5/3', 'fixed', 'SnakeCaseToCamelCaseVisitor raises IndexError on names made of underscores'),
+            ('G5/2', 'known', 'a chain member raising SkipNode leaves the members before it entered-but-never-left on that node and hides its children from them'),
+            ('G5/7', 'known', 'a chain member returning None: later members are not entered on the node but still receive its leave and its children'),
+            ('H1/5', 'known', 'ASTVisitor / DispatchingVisitor raise RecursionError on documents the parser accepted (about 130 nested selection sets, 200 nested list values)')],
+    "C19": [('G3/9', 'fixed', 'MaxDepthValidationRule raises CoercionError when @skip / @include is steered by a variable left to its default')],
+    "C20": [('G5/4', 'fixed', 'removing the default of a non-null input is only DANGEROUS'),
+            ('G5/6', 'fixed', 'the order of reported changes depends on PYTHONHASHSEED'),
+            ('H5/5', 'fixed', 'a type rebuilt with a subclass (custom ScalarType subclass, EnumType.from_python_enum) was reported as changed kind'),
+            ('H5/4', 'known', 'default values are compared as Python values: structurally equal schemas report a changed default, and a real A -> B default edit of an enum with swapped values is missed'),
+            ('I5/8', 'fixed', 'the sequence of reported changes followed the order the types were defined in')],
 }
 BACKEND = "hunt demonstration scripts"
 
